@@ -1,4 +1,5 @@
 import ShootVerif.Proofs.EnumBasic
+import ShootVerif.Gen.Facts
 /-!
 C04 — for every integer type with typed constants the generated String, Values, Strings, ValueMap,
 StringMap and IsValid agree with the declaration: each declared constant maps to its name with the
@@ -212,6 +213,24 @@ def bigExample : Input :=
 example : WF bigExample = true ∧ valuesT (tables bigExample) = [1, 9223372036854775808] ∧
     printed bigExample.kind 9223372036854775808 = 9223372036854775808 ∧
     stringOf bigExample.kind bigExample.T (tables bigExample) 9223372036854775808 = .name ['B'] := by decide
+
+/-! ### the model generates one type at a time: nothing computed for one type can reach the next
+
+The model (`gen`, `tables`) is a function of the type, its kind and the package alone.  That is sound
+for a run that generates several types (`-type=A,B`, `-file=`, `-type=*`) as long as the state of
+`enumer.Generator` that outlives a type is never written while a type is processed.  Checked on the
+table of `Generator` fields and of the functions assigning them, REGENERATED from /repo on every run
+(`Gen/Facts.lean`): the fields are exactly these four; `flags` is written by ParseFlags only, `pkg` by
+addPackage only (both before the first type), and `data` is created afresh by MakeData for every
+type and otherwise only filled in by the make* helpers. -/
+theorem C04_state_per_type :
+    ((Facts.genStateFields.filter (fun f => f.1 = "internal/enumer" && f.2.1 = "Generator")).map (·.2.2.1)
+        = ["GeneratorBase", "flags", "data", "pkg"]) ∧
+    (Facts.genStateWrites.filter (fun w => w.1 = "internal/enumer")).all (fun w =>
+        (w.2.2.1 != "flags" || w.2.1 == "ParseFlags") && (w.2.2.1 != "pkg" || w.2.1 == "addPackage") &&
+        (w.2.2.1 != "data" || w.2.1 == "MakeData" || w.2.2.2 == "update")) = true ∧
+    Facts.genStateWrites.contains ("internal/enumer", "MakeData", "data", "set") = true := by
+  decide
 
 /-! ### finding regions: concrete packages inside the property's quantifier on which the model (and the
 code) differs from the specification -/
